@@ -24,6 +24,7 @@ type genPackage struct {
 	Enable  []string          `json:"enable"`
 	Disable []string          `json:"disable"`
 	Ignore  []string          `json:"ignore_not_implemented"` // gen.Options.Generator.IgnoreNotImplemented
+	Isolate bool              `json:"isolate"`                // run the generator for this spec in a process of its own (a fatal error - stack exhaustion - cannot be recovered in process)
 	Meta    json.RawMessage   `json:"meta"`
 }
 
@@ -132,7 +133,43 @@ func generateUnit(hdir, scratch string, u *UnitSpec, tier string, seed int64) er
 		dis = append(dis, g.Features...)
 		jobs = append(jobs, job{Name: p.Name, Spec: sp, Out: filepath.Join(udir, p.Name), Pkg: p.Name, Enable: p.Enable, Disable: dis, Ignore: p.Ignore})
 	}
-	jb, _ := json.Marshal(jobs)
+	type genResult struct {
+		Name string `json:"name"`
+		OK   bool   `json:"ok"`
+		Err  string `json:"err"`
+	}
+	var results []genResult
+	isolated := map[string]bool{}
+	for _, p := range gout.Packages {
+		if p.Isolate {
+			isolated[p.Name] = true
+		}
+	}
+	var batch []job
+	for _, j := range jobs {
+		if !isolated[j.Name] {
+			batch = append(batch, j)
+			continue
+		}
+		jb, _ := json.Marshal([]job{j})
+		jf := filepath.Join(udir, "job_"+j.Name+".json")
+		os.WriteFile(jf, jb, 0o644)
+		var stderr strings.Builder
+		cmd := exec.Command(bin, jf)
+		cmd.Stderr = &stderr
+		out, err := cmd.Output()
+		var one []genResult
+		if err != nil || json.Unmarshal(out, &one) != nil || len(one) != 1 {
+			msg := stderr.String()
+			if len(msg) > 300 {
+				msg = msg[:300]
+			}
+			results = append(results, genResult{Name: j.Name, OK: false, Err: "PANIC: the generator process died (" + fmt.Sprint(err) + "): " + strings.ReplaceAll(msg, "\n", " | ")})
+			continue
+		}
+		results = append(results, one[0])
+	}
+	jb, _ := json.Marshal(batch)
 	jf := filepath.Join(udir, "jobs.json")
 	os.WriteFile(jf, jb, 0o644)
 	cmd := exec.Command(bin, jf)
@@ -141,14 +178,11 @@ func generateUnit(hdir, scratch string, u *UnitSpec, tier string, seed int64) er
 	if err != nil {
 		return fmt.Errorf("genrun failed: %v", err)
 	}
-	var results []struct {
-		Name string `json:"name"`
-		OK   bool   `json:"ok"`
-		Err  string `json:"err"`
-	}
-	if err := json.Unmarshal(out, &results); err != nil {
+	var batchRes []genResult
+	if err := json.Unmarshal(out, &batchRes); err != nil {
 		return fmt.Errorf("genrun output: %v", err)
 	}
+	results = append(results, batchRes...)
 	okPkg := map[string]bool{}
 	for _, r := range results {
 		if r.OK {
